@@ -10,6 +10,7 @@
 
 use std::collections::BTreeMap;
 
+pub mod faultalloc;
 pub mod ledger;
 pub mod runner;
 
